@@ -17,7 +17,9 @@ macro_rules! h {
         #[kani::stub(std::alloc::alloc, alloc_stub)]
         #[kani::stub(alloc::alloc::dealloc_nonnull, dealloc_stub)]
         fn $name() {
-            $body
+            crate::ghost::arm();
+            $body;
+            kani::cover!(true, "end of harness reached");
         }
     };
 }
@@ -98,6 +100,7 @@ pair!(t_first_s1a64_s3a1, t_second_s1a64_s3a1, t_clone1_s1a64_s3a1, t_drop1_s1a6
 
 #[kani::proof]
 fn q_union_size() {
+    crate::ghost::arm();
     assert!(size_of::<ArcUnion<u8, u64>>() == size_of::<usize>());
     assert!(size_of::<Option<ArcUnion<u8, u64>>>() == size_of::<usize>());
     assert!(size_of::<ArcUnion<Zst, S33a32>>() == size_of::<usize>());
